@@ -142,6 +142,12 @@ def run(ctx, pid, r, viol, classes=None, nbase=None, cap=None):
                     continue        # its order is the listed finding of C01/C12; the pattern streams cover maven
                 bad(f"{name}: {a.string!r} and {b.string!r} are not related by exactly one of <, ==, > (both ways round), so ranges over them have no meaning", inputs=inp)
                 continue
+            if name == "MavenVersion" and x == "eq" and a.value._canonical(a.value._parsed) != b.value._canonical(b.value._parsed):
+                # the listed finding of C12 (maven == is not an equivalence where a sub-list with an empty first item faces a
+                # missing item): equal versions with different hashes; whatever is built on hashing (duplicate detection in
+                # validate, sets) inherits it, and it is reported once, by C12
+                st["known_c12_finding"] = st.get("known_c12_finding", 0) + 1
+                continue
             st["checked"] += 1
             st["equal"] += x == "eq"
             evals += 1
